@@ -499,6 +499,13 @@ class SymDA:
                 if inverse:
                     raise Unsupported("vector / matrix")
                 return o._bin_mul(self)
+            if a == 2 and b == 2 and not inverse and set(o._dims) == set(self._dims):
+                # x * conj(x): element-wise squared modulus, only usable through .sum()
+                ot2 = o.transpose(*self._dims).term
+                st = self.term
+                if ot2 is st and not self.cplx or (ot2.op == "conj" and ot2.args[0] is st) or (st.op == "conj" and st.args[0] is ot2):
+                    base = st if st.op != "conj" else st.args[0]
+                    return self._new(base, mark="abs2", cplx=False)
             raise Unsupported("element-wise product of two 2-d arrays")
         if isinstance(o, (int, float)) and type(o) is not bool or type(o) is PNum:
             z = tm.rv(zl(o))
@@ -912,6 +919,22 @@ class NPFacade:
         if type(t) is PNum:
             t = float
         return _np.finfo(t)
+
+    def log(self, x):
+        from .nd import SymND
+        if isinstance(x, SymND) and x.nd == 1:
+            return SymND(tm.fn("log", x.term, props=("diag", "real", "herm")), 1, False, x.lazy)
+        if self._concrete(x):
+            return _np.log(x)
+        raise Unsupported("np.log")
+
+    def angle(self, x):
+        from .nd import SymND
+        if isinstance(x, SymND) and x.nd == 1:
+            return SymND(tm.fn("angle", x.term, props=("diag", "real", "herm")), 1, False, x.lazy)
+        if self._concrete(x):
+            return _np.angle(x)
+        raise Unsupported("np.angle")
 
     def diag(self, x):
         from .nd import SymND
